@@ -434,9 +434,12 @@ MUTANTS = [
          old="            if data_starts_at < self.start:", new="            if False:"),
     dict(name="continuity check disabled", file="strax/chunk.py",
          old="            if chunk.start != last_end:", new="            if False:"),
-    dict(name="original F-C12: chunk constructor compares the declared dtype with itself", file="strax/chunk.py",
-         old="        got_dtype = strax.remove_titles_from_dtype(self.data.dtype)",
-         new="        got_dtype = strax.remove_titles_from_dtype(np.dtype(dtype))"),
+    # (the original F-C12 - Chunk.__init__ comparing the declared dtype with itself - is no longer observable on its
+    # own: since the repair of F-C12c _fix_output checks the dtype of every returned chunk as well)
+    dict(name="original F-C12c: _fix_output does not check the dtype of chunks made by the plugin", file="strax/plugins/plugin.py",
+         old="        self._check_dtype(result.data, _dtype)\n        return self.superrun_transformation", new="        return self.superrun_transformation"),
+    dict(name="label check accepts any output of the same plugin", file="strax/plugins/plugin.py",
+         old="        if result.data_type != _dtype:", new="        if result.data_type not in self.provides:"),
     dict(name="original F-C12b: down-chunking plugin does not check the data_type label", file="strax/plugins/down_chunking_plugin.py",
          old="            if wrong:", new="            if False and wrong:"),
     dict(name="data_type label not checked", file="strax/plugins/plugin.py",
